@@ -530,6 +530,14 @@ func (w *World) opGC(op Op) {
 		w.x.out.probe("gc-with-open-session")
 	}
 	w.markCollectable()
+	fs := w.x.sim.FS
+	faulty := op.S == "faulty" && w.root != "" && fs.Rate == 0 && fs.FaultStream != nil
+	if faulty {
+		// this pass meets failing opens, stats and directory listings (EIO): it may give up, it must not take what it could
+		// not look at for garbage. Nothing else in the run is faulted, so every oracle stays on
+		fs.Rate, fs.FaultKinds, fs.FaultUnder = op.A, []string{"read"}, w.root
+	}
+	fired := len(fs.Fired)
 	var err error
 	if op.Repo < 0 {
 		err = w.forceGCPass(time.Time{})
@@ -537,6 +545,13 @@ func (w *World) opGC(op Op) {
 		err = w.forceGC(w.repoName(op.Repo))
 	}
 	_ = err
+	if faulty {
+		fs.Rate = 0
+		if len(fs.Fired) > fired {
+			w.x.out.probe("gc-under-read-faults")
+		}
+		w.faultsSeen = len(fs.Fired)
+	}
 	w.markCollectable()
 }
 
